@@ -1,6 +1,7 @@
 //! C18 — a truncated file yields errors or unchanged answers, never different answers; appending bytes
 //! changes no answer.
 use crate::common::*;
+use crate::conv;
 use crate::queries::{self, Q, QR};
 use verif_model::filegen::{self, RichOpts};
 use verif_model::inputs;
@@ -57,9 +58,42 @@ fn check_file(w: &[u8], names: &[Vec<u8>], marks: &[usize], c: &mut Choice, ever
             }
         }
     }
+    // the stand-alone header parsers at the first entries of both tables: on a prefix, an error or the complete file's
+    // answer (a caller may read headers straight from a partly written file)
+    let (en, class) = (fw.ehdr.endianness, fw.ehdr.class);
+    let mut sh_at: Vec<(usize, Option<elf::section::SectionHeader>)> = vec![];
+    let mut ph_at: Vec<(usize, Option<elf::segment::ProgramHeader>)> = vec![];
+    for i in 0..3usize {
+        if let Some(o) = (fw.ehdr.e_shoff as usize).checked_add(i * if class == Class::ELF64 { 64 } else { 40 }).filter(|_| fw.ehdr.e_shoff != 0) {
+            let mut off = o;
+            sh_at.push((o, elf::section::SectionHeader::parse_at(en, class, &mut off, w).ok()));
+        }
+        if let Some(o) = (fw.ehdr.e_phoff as usize).checked_add(i * if class == Class::ELF64 { 56 } else { 32 }).filter(|_| fw.ehdr.e_phoff != 0) {
+            let mut off = o;
+            ph_at.push((o, elf::segment::ProgramHeader::parse_at(en, class, &mut off, w).ok()));
+        }
+    }
     for l in lengths_to_try(w.len(), marks, c, every_below) {
         let p = &w[..l];
         st.prefixes += 1;
+        for (o, whole) in &sh_at {
+            let mut off = *o;
+            let r = guard(|| elf::section::SectionHeader::parse_at(en, class, &mut off, p)).map_err(|m| format!("SectionHeader::parse_at panicked at offset {} of the {}-byte prefix: {}", o, l, m))?;
+            if let Ok(x) = r {
+                if whole.as_ref().map(|y| conv::FieldEq::field_eq(&x, y)) != Some(true) {
+                    return Err(format!("SectionHeader::parse_at at offset {} of the {}-byte prefix of a {}-byte file answers Ok({:?}); on the complete file it answers {:?}", o, l, w.len(), x, whole));
+                }
+            }
+        }
+        for (o, whole) in &ph_at {
+            let mut off = *o;
+            let r = guard(|| elf::segment::ProgramHeader::parse_at(en, class, &mut off, p)).map_err(|m| format!("ProgramHeader::parse_at panicked at offset {} of the {}-byte prefix: {}", o, l, m))?;
+            if let Ok(x) = r {
+                if whole.as_ref().map(|y| conv::FieldEq::field_eq(&x, y)) != Some(true) {
+                    return Err(format!("ProgramHeader::parse_at at offset {} of the {}-byte prefix of a {}-byte file answers Ok({:?}); on the complete file it answers {:?}", o, l, w.len(), x, whole));
+                }
+            }
+        }
         if let Ok(fp) = elf::ElfBytes::<AnyEndian>::minimal_parse(p) {
             st.opened += 1;
             let (mut oks, mut errs) = (0, 0);
